@@ -367,9 +367,9 @@ def run_partA(case):
         if ok is False and null_only:
             if nname not in ("obj", "json", "dotted"):
                 continue
-            ev.append(("check", res[0] != "ok", K("accepted-null-for-non-optional-init_arg", key),
-                       "null was accepted for a parameter whose type does not allow None" + (f"; instantiate_classes -> {instantiate(parser, res[1])[0][0]}" if res[0] == "ok" else ""), info))
-            ev.append(("nt", ("A", "invalid", lab, nname)))
+            # not asserted: jsonargparse never type-checks null (C02: "every non-null value conforms"), so null for a
+            # non-Optional init_arg is the library-wide rule, not a class_path matter
+            ev.append(("nt", ("A", "null-unasserted", lab, nname)))
             continue
         if ok is False:
             ev.append(("check", res[0] != "ok", K("accepted-invalid", key), "a configuration that is invalid for the declared type / the named class was accepted", info))
